@@ -78,7 +78,7 @@ def parse_output(text, names):
             if m:
                 h.covers_sat, h.covers_total = int(m.group(1)), int(m.group(2))
             m = re.search(r"VERIFICATION:- (\w+)", line)
-            if m:
+            if m and h.status not in ("ERROR", "TIMEOUT"):
                 h.status = m.group(1)
             m = re.search(r"Verification Time: ([\d.]+)s", line)
             if m:
@@ -88,7 +88,7 @@ def parse_output(text, names):
                 h.failed_checks.append(m.group(1).strip())
             if "timed out" in line.lower() or "TIMEOUT" in line:
                 h.status = "TIMEOUT"
-            if "Status: ERROR" in line or "CBMC failed" in line or \
+            if "Status: ERROR" in line or re.search(r"CBMC failed( with status \d+)?$", line.strip()) or \
                     "out of memory" in line.lower() or "std::bad_alloc" in line:
                 h.status = "ERROR"
     for h in res.values():
